@@ -507,9 +507,16 @@ def retransmission_carries_the_drawn_number(ctx, repo, rule):
         for c2, b2, args2, _e2, d2 in rows:
             if c2 != cname:
                 continue
+            def on_wire(msg):
+                # what the socket would send now: the framed bytes when the handler can be framed, else its content
+                try:
+                    interp.steps = 0
+                    return interp.getattr(msg, "send_bytes")
+                except (PyRaise, Undecided):
+                    return wire_of(msg, interp)
             try:
-                req = build_message(repo, interp, cname, builder, args)
-                before = wire_of(req, interp)
+                req = build_message(repo, interp, cname, builder, args, {"parms": ("10.1.2.3", 10022, b"SPA-ID", b"IOS-CLIENT")})
+                before = on_wire(req)
                 reply = wire_of(build_message(repo, interp, c2, b2, args2), interp)
                 if before is None or reply is None:
                     continue
@@ -519,7 +526,7 @@ def retransmission_carries_the_drawn_number(ctx, repo, rule):
                     continue
                 interp.steps = 0
                 interp.call(repo.method(cname, "handle"), req, [reply, SENDER])
-                after = wire_of(req, interp)
+                after = on_wire(req)
             except (PyRaise, Undecided):
                 continue
             n += 1
